@@ -2,6 +2,8 @@
 From InfOCF Require Import Core Tol Form Model Spec ThmInv ThmPerm ThmSim ThmSimInst.
 From Coq Require Import Permutation.
 From InfOCFProps Require Import Ex.
+From InfOCF Require Import PyLib TieCons TieAnsP TieAnsW TieAnsLex TieRel12.
+From Coq Require Import ZArith.
 
 (* conditionals listed in the same order with pairwise equal verification and falsification sets - whatever their
    integer keys and however their antecedents / consequents are written - and a query with the same verification and
@@ -55,3 +57,23 @@ Definition birds' := [ mk 0 (FNot (FNot (v 2))) (FAnd (v 0) FTop); mk 17 (FNot (
 Example birds_represented : forallb (fun s => forallb (fun q => match infer 4 s false birds q, infer 4 s false birds' q with
     | Ans a, Ans b => Bool.eqb a b | _, _ => false end) [q_fp; q_nfp; q_wp]) [SysP; SysZ; SysW; SysLex] = true.
 Proof. vm_compute. reflexivity. Qed.
+
+(* SOURCE TIE.  The answers of the GENERATED code (src_p / src_w / src_lex, see C08) do not depend on the keys, on which of
+   several equivalent formulas stand in base and query, or on the order in which the base lists its conditionals. *)
+Theorem C12_source_presentation_p : forall n D D', D <> [] -> D' <> [] -> forall weakly q q' b b', Forall2 ceq D D' -> ceq q q' ->
+  src_p n D weakly q b -> src_p n D' weakly q' b' -> b = b'.
+Proof. exact src_presentation_p. Qed.
+Theorem C12_source_presentation_w : forall n D D', NoDup (map kzc D) -> NoDup (map kzc D') -> D <> [] -> D' <> [] ->
+  forall weakly q q' b b', Forall2 ceq D D' -> ceq q q' -> src_w n D weakly q b -> src_w n D' weakly q' b' -> b = b'.
+Proof. exact src_presentation_w. Qed.
+Theorem C12_source_presentation_lex : forall n D D', NoDup (map kzc D) -> NoDup (map kzc D') -> D <> [] -> D' <> [] ->
+  forall weakly q q' b b', Forall2 ceq D D' -> ceq q q' -> src_lex n D weakly q b -> src_lex n D' weakly q' b' -> b = b'.
+Proof. exact src_presentation_lex. Qed.
+Theorem C12_source_order_w : forall n D D', NoDup (map kzc D) -> NoDup (map kzc D') -> D <> [] -> D' <> [] ->
+  forall weakly q b b', Permutation D D' -> src_w n D weakly q b -> src_w n D' weakly q b' -> b = b'.
+Proof. exact src_order_w. Qed.
+Theorem C12_source_order_lex : forall n D D', NoDup (map kzc D) -> NoDup (map kzc D') -> D <> [] -> D' <> [] ->
+  forall weakly q b b', Permutation D D' -> src_lex n D weakly q b -> src_lex n D' weakly q b' -> b = b'.
+Proof. exact src_order_lex. Qed.
+Print Assumptions C12_source_presentation_p. Print Assumptions C12_source_presentation_w. Print Assumptions C12_source_presentation_lex.
+Print Assumptions C12_source_order_w. Print Assumptions C12_source_order_lex.
